@@ -3,6 +3,8 @@
 # (benign/<name>/patch.diff applied to a scratch worktree of /repo HEAD).  Expected: exit 0 everywhere (no false alarm).
 cd "$(dirname "$0")/.."
 names=("$@"); [ ${#names[@]} -eq 0 ] && names=($(ls benign | grep -v RESULTS))
+# changes whose patch no longer applies because /repo was repaired at the same place are kept for the record but not run
+keep=(); for n in "${names[@]}"; do python3 -c "import json,sys;sys.exit(1 if json.load(open('benign/$n/meta.json')).get('obsolete') else 0)" && keep+=("$n"); done; names=("${keep[@]}")
 PAR=${PAR:-3}
 run_one() {
   n=$1; id=$(python3 -c "import json;print(json.load(open('benign/$n/meta.json'))['property'])")
